@@ -238,70 +238,7 @@ func checkC06(c *Check) {
 			"when Stop() reports the timer already fired its channel is drained before Reset (go.mod is below go1.23: a stale tick would otherwise expire the session right after a message arrived)")
 	}
 
-	// restart discipline in OpenConfirm / Established
-	types4 := []string{"*Notification", "*keepAliveMessage", "*openMessage", "updateMessage"}
-	for _, s := range []struct {
-		state, typ string
-		ret        bool
-	}{{"fsm.openConfirm", "*keepAliveMessage", true}, {"fsm.established", "*keepAliveMessage", false}, {"fsm.established", "updateMessage", false}} {
-		sf := p.stateClosure(s.state)
-		if sf == nil {
-			continue
-		}
-		for _, zero := range []bool{false, true} {
-			b := NewAnalysis(p, sf)
-			b.AtomHook = hooks(msgTypeHook(s.typ, types4), func(e *Expr) (ISet, bool) {
-				if isHold(e) {
-					if zero {
-						return isConst(0), true
-					}
-					return isRange(1, posInf), true
-				}
-				if e.Op == "nn" && e.Args[0].Op == "rcall" && e.Args[0].S == "dyn:UpdateMessageHandler" {
-					return isConst(0), true
-				}
-				return nil, false
-			})
-			b.Run()
-			name := fmt.Sprintf("(%s, %s, hold time zero=%v)", strings.TrimPrefix(s.state, "fsm."), s.typ, zero)
-			// find the states leaving the message case: returns dominated by
-			// the type switch, or back edges whose source is dominated by it
-			var sts []*State
-			if s.ret {
-				for _, r := range b.Returns {
-					if typeSwitchDominated(r.Instr) {
-						sts = append(sts, r.State)
-					}
-				}
-			} else {
-				for _, blk := range sf.Blocks {
-					for _, succ := range blk.Succs {
-						if succ.Dominates(blk) && blockTypeSwitchDominated(blk) {
-							sts = append(sts, b.EdgeOut[[2]int{blk.Index, succ.Index}]...)
-						}
-					}
-				}
-			}
-			if len(sts) == 0 {
-				c.fail("C06.2 restart-discipline", p.Name(sf), name, p.Pos(sf.Pos()), "message case not reachable")
-				continue
-			}
-			ok := true
-			for _, st := range sts {
-				if zero && st.may["call:fsm.drainAndResetHoldTimer"] {
-					ok = false
-				}
-				if !zero && !st.must["call:fsm.drainAndResetHoldTimer"] {
-					ok = false
-				}
-			}
-			want := "the hold timer is restarted on every such message"
-			if zero {
-				want = "the hold timer is never (re)started when the negotiated hold time is zero"
-			}
-			c.require(ok, "C06.2 restart-discipline", p.Name(sf), name, p.Pos(sf.Pos()), want)
-		}
-	}
+	c.holdTimerRestartDiscipline("C06.2 restart-discipline")
 	// keepalive timer: reset after every KEEPALIVE sent; manager guarded by hold time
 	for _, s := range []string{"fsm.openConfirm", "fsm.established"} {
 		sf := p.stateClosure(s)
@@ -393,6 +330,105 @@ func checkC06(c *Check) {
 		}},
 	})
 	c.timerDiscipline("C06.3 nil-timers")
+	c.configuredHoldTimeProvenance("C06.5 configured-hold-time")
+}
+
+// configuredHoldTimeProvenance: the locally configured hold time that takes
+// part in the negotiation is the one the user configured. peerOptions.holdTime
+// is written (a) by the WithHoldTime option with Duration(seconds)*time.Second,
+// (b) by default initialisation that runs before the options are applied;
+// nothing rewrites it once an option may have set it (a "fill in defaults
+// when zero" step cannot tell an explicit 0 from "unset").
+func (c *Check) configuredHoldTimeProvenance(rule string) {
+	p := c.P
+	add := p.Fn("Server.AddPeer")
+	if add == nil {
+		return
+	}
+	// (b) in AddPeer's context, helpers inlined
+	type site struct {
+		pos   string
+		after bool
+	}
+	var sites []site
+	judged := map[*ssa.Function]bool{}
+	a := NewAnalysis(p, add)
+	a.StoreHook = func(st *State, addr, val *Expr, in *ssa.Store) {
+		if addr.Op == "fa" && addr.S == "holdTime" && addr.Aux == "peerOptions" {
+			sites = append(sites, site{p.InstrPos(in), st.may["call:invoke:PeerOption.apply"]})
+			judged[in.Parent()] = true
+		}
+	}
+	a.Run()
+	for _, u := range a.Undecided {
+		c.undecided(rule, "Server.AddPeer", "analysis", p.Pos(add.Pos()), u)
+	}
+	seen := map[string]bool{}
+	for _, s := range sites {
+		k := fmt.Sprint(s.pos, s.after)
+		if seen[k] {
+			continue
+		}
+		seen[k] = true
+		c.require(!s.after, rule, "Server.AddPeer", "hold time not rewritten after options", s.pos,
+			"a write of peerOptions.holdTime in AddPeer's context happens before any PeerOption may have been applied (afterwards WithHoldTime(0) would be indistinguishable from unset)")
+	}
+	applyReached := false
+	for _, r := range a.Returns {
+		if r.State.may["call:invoke:PeerOption.apply"] {
+			applyReached = true
+		}
+	}
+	c.require(applyReached, rule, "Server.AddPeer", "options applied", p.Pos(add.Pos()), "AddPeer applies the caller's PeerOptions")
+	// (a) and the writer inventory
+	n := 0
+	for _, fn := range p.FuncSeq {
+		for _, acc := range p.fieldAccesses(fn) {
+			if acc.Struct != "peerOptions" || acc.Field != "holdTime" || !acc.Write {
+				continue
+			}
+			n++
+			name := p.Name(fn)
+			root := fn
+			for root.Parent() != nil {
+				root = root.Parent()
+			}
+			switch {
+			case p.Name(root) == "WithHoldTime":
+				okV := false
+				if st, isS := acc.Instr.(*ssa.Store); isS {
+					b := NewAnalysis(p, fn)
+					b.Run()
+					for _, s := range b.At[st] {
+						v := b.ExprAt(s, st.Val)
+						l := s.linOf(v)
+						if len(l.T) == 1 && l.C == 0 {
+							for k, coef := range l.T {
+								e := l.E[k]
+								for e.Op == "conv" {
+									e = e.Args[0]
+								}
+								if coef == 1000000000 && (e.Op == "freevar" || e.Op == "param" || strings.Contains(e.Key, "seconds")) {
+									okV = true
+								}
+							}
+						}
+					}
+				}
+				c.require(okV, rule, name, "WithHoldTime stores seconds*time.Second", p.InstrPos(acc.Instr), "the option stores exactly Duration(seconds)*time.Second")
+			case isFreshWrite(acc):
+				c.ok(rule, name, "default initialisation of a fresh peerOptions", p.InstrPos(acc.Instr), "write to a value under construction")
+			default:
+				// writers reached from AddPeer were judged above in its context
+				if judged[fn] {
+					c.ok(rule, name, "write judged in AddPeer's context", p.InstrPos(acc.Instr), "see 'hold time not rewritten after options'")
+				} else {
+					c.fail(rule, name, "unexpected writer of peerOptions.holdTime", p.InstrPos(acc.Instr), "the configured hold time is written only by WithHoldTime and default initialisation")
+				}
+			}
+		}
+	}
+	c.floor(rule, n, 2, "writers of peerOptions.holdTime")
 }
 
 func blockTypeSwitchDominated(b *ssa.BasicBlock) bool {
@@ -412,4 +448,81 @@ func blockTypeSwitchDominated(b *ssa.BasicBlock) bool {
 		}
 	}
 	return false
+}
+
+// holdTimerRestartDiscipline: in OpenConfirm and Established a legal message
+// restarts the hold timer exactly when the negotiated hold time is non-zero.
+// With hold time zero the timer was stopped and drained when OpenSent ended, so
+// a restart would arm a timer that must never fire and, go.mod being below
+// go1.23, the Stop-failed-then-drain sequence of drainAndResetHoldTimer would
+// block forever on the empty channel: the legal message would wedge the FSM.
+func (c *Check) holdTimerRestartDiscipline(rule string) {
+	p := c.P
+	isHold := func(e *Expr) bool { return isLoadOfField(e, "holdTime") && e.Args[0].Aux == "fsm" }
+	// restart discipline in OpenConfirm / Established
+	types4 := []string{"*Notification", "*keepAliveMessage", "*openMessage", "updateMessage"}
+	for _, s := range []struct {
+		state, typ string
+		ret        bool
+	}{{"fsm.openConfirm", "*keepAliveMessage", true}, {"fsm.established", "*keepAliveMessage", false}, {"fsm.established", "updateMessage", false}} {
+		sf := p.stateClosure(s.state)
+		if sf == nil {
+			continue
+		}
+		for _, zero := range []bool{false, true} {
+			b := NewAnalysis(p, sf)
+			b.AtomHook = hooks(msgTypeHook(s.typ, types4), func(e *Expr) (ISet, bool) {
+				if isHold(e) {
+					if zero {
+						return isConst(0), true
+					}
+					return isRange(1, posInf), true
+				}
+				if e.Op == "nn" && e.Args[0].Op == "rcall" && e.Args[0].S == "dyn:UpdateMessageHandler" {
+					return isConst(0), true
+				}
+				return nil, false
+			})
+			b.ForceInline = map[string]bool{"fsm.drainAndResetHoldTimer": true}
+			b.EventArgs = p.timerEventArgs
+			b.Run()
+			name := fmt.Sprintf("(%s, %s, hold time zero=%v)", strings.TrimPrefix(s.state, "fsm."), s.typ, zero)
+			// find the states leaving the message case: returns dominated by
+			// the type switch, or back edges whose source is dominated by it
+			var sts []*State
+			if s.ret {
+				for _, r := range b.Returns {
+					if typeSwitchDominated(r.Instr) {
+						sts = append(sts, r.State)
+					}
+				}
+			} else {
+				for _, blk := range sf.Blocks {
+					for _, succ := range blk.Succs {
+						if succ.Dominates(blk) && blockTypeSwitchDominated(blk) {
+							sts = append(sts, b.EdgeOut[[2]int{blk.Index, succ.Index}]...)
+						}
+					}
+				}
+			}
+			if len(sts) == 0 {
+				c.fail(rule, p.Name(sf), name, p.Pos(sf.Pos()), "message case not reachable")
+				continue
+			}
+			ok := true
+			for _, st := range sts {
+				if zero && (st.may["call:time.Timer.Reset(holdTimer)"] || st.may["recv:holdTimer.C"]) {
+					ok = false
+				}
+				if !zero && !st.must["call:time.Timer.Reset(holdTimer)"] {
+					ok = false
+				}
+			}
+			want := "the hold timer is restarted on every such message"
+			if zero {
+				want = "with a negotiated hold time of zero the hold timer is neither reset nor drained (no Timer.Reset(holdTimer), no bare receive from holdTimer.C: the timer is stopped and empty, a drain would block forever)"
+			}
+			c.require(ok, rule, p.Name(sf), name, p.Pos(sf.Pos()), want)
+		}
+	}
 }
